@@ -149,3 +149,18 @@ Qed.
 Definition wit_s : state :=
   mkState wit_prm [(1, wit_tok 1 2); (3, mkToken 3 true 1 1 0 1 true 0 50 false (-1))]
           [(1, 3); (2, 1)] [((0, 1), 1)] [(2, 17)].
+
+(** ** after a parameter change (MsgUpdateParams) naming an unregistered symbol as issue-fee denom: a state the
+    chain can be in — every parameter-independent clause of the invariant holds, the parameters pass
+    Params.Validate — whose export validates and whose import PANICS ("Token ... does not exist"); reachable on the
+    code as it was, before "fix: token MsgUpdateParams rejects an issue fee denominated in an unregistered symbol";
+    clause 5 of the check, corpus/C12/token-params-fee-denom-unregistered.jsonl.  [pf_s k]: one token with symbol 1;
+    the fee is denominated in symbol [k] *)
+Definition pf_s (k : Z) : state :=
+  mkState (mkParams 400000000000000000 (k, 60000) 100000000000000000 true 0)
+          [(1, wit_tok 1 1)] [(1, 1)] [((0, 1), 1)] [].
+Lemma token_import_total_refuted_after_param_change_lemma :
+  invb (pf_s 1) = true
+  /\ invb_core (pf_s 3) = true /\ fee_registered (pf_s 3) = false
+  /\ validate false (export (pf_s 3)) = true /\ import false (export (pf_s 3)) = None.
+Proof. repeat split; vm_compute; reflexivity. Qed.
